@@ -260,7 +260,7 @@ def run(tier, seed, replay=None):
     # ---- model phase and builds side by side
     # (the model phase keeps running beside the conformance step; its result is collected before the verdict)
     ex = ThreadPoolExecutor(max_workers=3)
-    fm = None if replay else ex.submit(tlc, wd, 'MC_Layout', 'MC_Layout.cfg', 6, None, 1500)
+    fm = None if (replay or os.environ.get('VERIF_NOMODEL')) else ex.submit(tlc, wd, 'MC_Layout', 'MC_Layout.cfg', 6, None, 1500)
     try:
         fb = {v: ex.submit(build_variant, ck, table, v, wd) for v in variants}
         built = {v: f.result() for v, f in fb.items()}
